@@ -537,8 +537,11 @@ def check_overlay(ck, R):
 class _Filt:
     """A comprehension filter over an own map: the `if`s, the key variable, the value variable (or None)."""
 
-    def __init__(self, ifs, keyvar, valvar, field):
+    def __init__(self, ifs, keyvar, valvar, field, comp=None, unpacked=None):
         self.ifs, self.keyvar, self.valvar, self.field = ifs, keyvar, valvar, field
+        # the comprehension itself (its filter may mention locals of the function) and, when the entry is taken apart
+        # in the target (`for k, (t, c, inherited) in m.items()`), {name: position of the field it is bound to}
+        self.comp, self.unpacked = comp, unpacked or {}
 
     def __repr__(self):
         return "if " + " and ".join(A.norm(i) for i in self.ifs)
@@ -615,28 +618,37 @@ def _kv(e, env):
         for x in e.elts:
             s = _joined(s, _kv(x.value, env)[0] if isinstance(x, ast.Starred) else frozenset([("?", A.norm(x))]))
         return (_uniq(s) if isinstance(e, ast.Set) else s, False)
-    if isinstance(e, (ast.ListComp, ast.SetComp, ast.GeneratorExp)) and len(e.generators) == 1 and not e.generators[0].is_async:
+    if isinstance(e, (ast.ListComp, ast.SetComp, ast.GeneratorExp, ast.DictComp)) and len(e.generators) == 1 and not e.generators[0].is_async:
         g = e.generators[0]
         keyvar = valvar = None
+        unpacked = {}
+        # what is collected: the element, or the keys of a mapping built by a dict comprehension
+        elt = e.key if isinstance(e, ast.DictComp) else e.elt
         if isinstance(g.iter, ast.Call) and A.call_attr(g.iter) == "items" and not g.iter.args and A.call_recv(g.iter) is not None \
-                and isinstance(g.target, ast.Tuple) and len(g.target.elts) == 2 and all(isinstance(x, ast.Name) for x in g.target.elts):
+                and isinstance(g.target, ast.Tuple) and len(g.target.elts) == 2 and isinstance(g.target.elts[0], ast.Name) \
+                and (isinstance(g.target.elts[1], ast.Name) or (isinstance(g.target.elts[1], (ast.Tuple, ast.List))
+                                                                 and all(isinstance(x, ast.Name) for x in g.target.elts[1].elts))):
             src = _kv(A.call_recv(g.iter), env)[0]
-            keyvar, valvar = g.target.elts[0].id, g.target.elts[1].id
+            keyvar = g.target.elts[0].id
+            if isinstance(g.target.elts[1], ast.Name):
+                valvar = g.target.elts[1].id
+            else:
+                unpacked = {x.id: i for i, x in enumerate(g.target.elts[1].elts)}
         elif isinstance(g.target, ast.Name):
             src = _kv(g.iter, env)[0]
             keyvar = g.target.id
         else:
             return _one(("?", A.norm(e)))
-        if isinstance(e, ast.SetComp):
+        if isinstance(e, (ast.SetComp, ast.DictComp)):
             src = _uniq(src)
         toks = list(src)
-        if isinstance(e.elt, ast.Name) and e.elt.id == keyvar and not g.ifs and toks and not any(t[0] == "?" for t in toks):
+        if isinstance(elt, ast.Name) and elt.id == keyvar and not g.ifs and toks and not any(t[0] == "?" for t in toks):
             return (src, False)
-        if isinstance(e.elt, ast.Name) and e.elt.id == keyvar and len(toks) == 1:
+        if isinstance(elt, ast.Name) and elt.id == keyvar and len(toks) == 1:
             if not g.ifs:
                 return (src, False)
             if toks[0][0] == "own" and toks[0][2] is None:
-                return _one(("own", toks[0][1], _Filt(g.ifs, keyvar, valvar, toks[0][1])))
+                return _one(("own", toks[0][1], _Filt(g.ifs, keyvar, valvar, toks[0][1], e, unpacked)))
         return _one(("?", A.norm(e)))
     return _one(("?", A.norm(e)))
 
@@ -905,53 +917,124 @@ def _shape_list(ck, R, cls):
           "list_keys() is not 'sorted union of parent and own keys, or sorted own keys' (%s)" % "; ".join(why[:3]), fa.where())
 
 
-def _simplify(e, name, value):
-    """Partial evaluation of a boolean expression with `name` := value -> True / False / residual expression."""
+def _bool_leaves(e, out):
+    """The atoms of a boolean expression: what is left once and / or / not / conditional expressions / bool(...) /
+    comparisons with True / False are taken apart."""
+    if isinstance(e, ast.Constant):
+        return
+    if isinstance(e, ast.UnaryOp) and isinstance(e.op, ast.Not):
+        return _bool_leaves(e.operand, out)
+    if isinstance(e, ast.BoolOp):
+        for v in e.values:
+            _bool_leaves(v, out)
+        return
+    if isinstance(e, ast.IfExp):
+        for v in (e.test, e.body, e.orelse):
+            _bool_leaves(v, out)
+        return
+    if isinstance(e, ast.Call) and isinstance(e.func, ast.Name) and e.func.id == "bool" and len(e.args) == 1 and not e.keywords:
+        return _bool_leaves(e.args[0], out)
+    if _flag_compare(e) is not None:
+        return _bool_leaves(e.left, out)
+    out.append(e)
+
+
+def _flag_compare(e):
+    """`x is True` / `x == False` / `x is not True` / `x != False` on a flag -> does it hold when x is true?  (None: another expression)"""
+    if isinstance(e, ast.Compare) and len(e.ops) == 1 and isinstance(e.comparators[0], ast.Constant) and isinstance(e.comparators[0].value, bool):
+        if isinstance(e.ops[0], (ast.Is, ast.Eq)):
+            return e.comparators[0].value
+        if isinstance(e.ops[0], (ast.IsNot, ast.NotEq)):
+            return not e.comparators[0].value
+    return None
+
+
+def _bool_value(e, val):
+    """Value of a boolean expression when its atoms take the truth values `val(atom)`."""
     if isinstance(e, ast.Constant):
         return bool(e.value)
-    if isinstance(e, ast.Name) and e.id == name:
-        return value
     if isinstance(e, ast.UnaryOp) and isinstance(e.op, ast.Not):
-        r = _simplify(e.operand, name, value)
-        return (not r) if isinstance(r, bool) else ast.UnaryOp(op=ast.Not(), operand=r)
+        return not _bool_value(e.operand, val)
     if isinstance(e, ast.BoolOp):
-        absorbing = isinstance(e.op, ast.Or)
-        rest = []
-        for v in e.values:
-            r = _simplify(v, name, value)
-            if isinstance(r, bool):
-                if r == absorbing:
-                    # a residual operand evaluated before it cannot change the outcome (filters have no effects)
-                    return absorbing
-                continue
-            rest.append(r)
-        if not rest:
-            return not absorbing
-        return rest[0] if len(rest) == 1 else ast.BoolOp(op=e.op, values=rest)
-    return e
+        vs = [_bool_value(v, val) for v in e.values]
+        return all(vs) if isinstance(e.op, ast.And) else any(vs)
+    if isinstance(e, ast.IfExp):
+        return _bool_value(e.body, val) if _bool_value(e.test, val) else _bool_value(e.orelse, val)
+    if isinstance(e, ast.Call) and isinstance(e.func, ast.Name) and e.func.id == "bool" and len(e.args) == 1 and not e.keywords:
+        return _bool_value(e.args[0], val)
+    fc = _flag_compare(e)
+    if fc is not None:
+        return _bool_value(e.left, val) == fc
+    return val(e)
 
 
-def _not_inherited(res, flt):
-    """Is `res` the test `not <entry of the key>.from_parent`?"""
-    if not (isinstance(res, ast.UnaryOp) and isinstance(res.op, ast.Not)):
-        if isinstance(res, ast.Compare) and len(res.ops) == 1 and isinstance(res.ops[0], (ast.Is, ast.Eq)) and isinstance(res.comparators[0], ast.Constant) \
-                and res.comparators[0].value is False:
-            x = res.left
-        else:
-            return False
-    else:
-        x = res.operand
-    if not (isinstance(x, ast.Attribute) and x.attr == "from_parent"):
-        return False
-    ent = x.value
-    if isinstance(ent, ast.Name):
-        return flt.valvar is not None and ent.id == flt.valvar
+def _entry_of_key(x, flt):
+    """Does `x` denote the entry the own map holds for the key at hand?  (the value variable of `.items()`,
+    `self.m[k]`, `self.m.get(k)`)"""
+    if isinstance(x, ast.Name):
+        return flt.valvar is not None and x.id == flt.valvar
     own = "self." + flt.field
-    if isinstance(ent, ast.Subscript):
-        return A.norm(ent.value) == own and A.norm(ent.slice) == flt.keyvar
-    if isinstance(ent, ast.Call) and A.call_attr(ent) == "get" and len(ent.args) == 1 and not ent.keywords:
-        return A.norm(A.call_recv(ent)) == own and A.norm(ent.args[0]) == flt.keyvar
+    if isinstance(x, ast.Subscript):
+        return A.norm(x.value) == own and A.norm(x.slice) == flt.keyvar
+    if isinstance(x, ast.Call) and A.call_attr(x) == "get" and len(x.args) == 1 and not x.keywords and A.call_recv(x) is not None:
+        return A.norm(A.call_recv(x)) == own and A.norm(x.args[0]) == flt.keyvar
     return False
+
+
+def _is_inherited_flag(x, flt, fields):
+    """Is `x` the from_parent mark of the entry of the key at hand?  (`<entry>.from_parent`, getattr(<entry>, 'from_parent'),
+    `<entry>[position of the field]`, the name the field is bound to when the entry is unpacked in the comprehension target)"""
+    pos = fields.index("from_parent") if "from_parent" in fields else None
+    if isinstance(x, ast.Attribute):
+        return x.attr == "from_parent" and _entry_of_key(x.value, flt)
+    if isinstance(x, ast.Call) and isinstance(x.func, ast.Name) and x.func.id == "getattr" and len(x.args) == 2 and not x.keywords:
+        return A.const_str(x.args[1]) == "from_parent" and _entry_of_key(x.args[0], flt)
+    if isinstance(x, ast.Subscript) and isinstance(x.slice, ast.Constant) and isinstance(x.slice.value, int) and not isinstance(x.slice.value, bool) and pos is not None:
+        return x.slice.value in (pos, pos - len(fields)) and _entry_of_key(x.value, flt)
+    if isinstance(x, ast.Name) and x.id in flt.unpacked and pos is not None:
+        return flt.unpacked[x.id] == pos and len(flt.unpacked) == len(fields)
+    return False
+
+
+def _filter_keeps(fa, flt, path, INC, inc, fields):
+    """Does the filter of a listing of the own map keep exactly the keys it should -- every key when the caller asks for
+    inherited entries too (`inc`), the keys whose entry is not marked from_parent otherwise?  Decided on the truth table
+    of the filter over its atoms (the flag, the mark, anything else it may mention: the outcome must not depend on it),
+    locals read through the values the path gave them."""
+    (t, _lits, tr) = path
+    test = flt.ifs[0] if len(flt.ifs) == 1 else ast.BoolOp(op=ast.And(), values=list(flt.ifs))
+    bound = {flt.keyvar} | ({flt.valvar} if flt.valvar else set()) | set(flt.unpacked)
+    ids = fa.nodes(flt.comp) if flt.comp is not None else []
+    try:
+        test = _on_trail(fa, test, ids[0] if ids else t, list(tr), tuple(bound))
+    except Exception:  # noqa
+        pass
+    leaves = []
+    _bool_leaves(test, leaves)
+    kinds = {}
+    for x in leaves:
+        txt = A.norm(x)
+        if isinstance(x, ast.Name) and x.id == INC:
+            kinds[txt] = "inc"
+        elif _is_inherited_flag(x, flt, fields):
+            kinds[txt] = "fp"
+        else:
+            kinds[txt] = "?"
+    free = sorted(k for k, v in kinds.items() if v == "?")
+    if len(free) > 6:
+        return False
+    import itertools
+    for fp in (True, False):
+        for other in itertools.product((True, False), repeat=len(free)):
+            table = dict(zip(free, other))
+
+            def val(x):
+                k = kinds[A.norm(x)]
+                return inc if k == "inc" else fp if k == "fp" else table[A.norm(x)]
+
+            if _bool_value(test, val) != (inc or not fp):
+                return False
+    return True
 
 
 def _stored_form_filter(ck, R):
@@ -959,6 +1042,7 @@ def _stored_form_filter(ck, R):
     not marked from_parent otherwise; sorted."""
     lk = PM.view(ck, PM.PICKLE_PARTITION + ".list_keys", "collections")
     INC = _param(ck, lk, 1, "_include_merge_parent")
+    fields = PM.entry_type_fields(ck)
     paths, falls = _exit_paths(lk)
     ok = bool(paths) and not falls
     seen = set()
@@ -976,13 +1060,10 @@ def _stored_form_filter(ck, R):
             inc = _pol(lits, INC)
             for w in ([inc] if inc is not None else [True, False]):
                 seen.add(w)
-                res = True
-                if flt is not None:
-                    res = _simplify(flt.ifs[0] if len(flt.ifs) == 1 else ast.BoolOp(op=ast.And(), values=list(flt.ifs)), INC, w)
-                if w:
-                    ok = ok and res is True
+                if flt is None:
+                    ok = ok and w  # the whole index: right only when inherited entries are asked for
                 else:
-                    ok = ok and not isinstance(res, bool) and _not_inherited(res, flt)
+                    ok = ok and _filter_keeps(lk, flt, path, INC, w, fields)
     ok = ok and seen == {True, False}
     ck.ob(R, lk.key(None, "stored-form-filter"), ok, "without parents, the stored form lists only entries not marked from_parent" if ok else
           "PicklePartition.list_keys(_include_merge_parent=False) does not filter out inherited entries: a re-stored child duplicates parent data as own", lk.where())
